@@ -2,26 +2,35 @@
 from __future__ import annotations
 
 import ast
+import itertools
 
 from ..core import Ctx
-from ..match import arg, call_name, calls, local_defs, resolve, single_def
-from ..model import AnalysisError, FuncInfo, ancestors, chain, const_value, enclosing_stmt, norm, parent, strip_cast, walk_no_nested
+from ..match import Fact, _atoms_with_polarity, call_name, calls, fact_of, local_defs, names_in, resolve
+from ..model import AnalysisError, FuncInfo, chain, const_value, enclosing_stmt, norm, strip_cast, walk_no_nested
 from ..poly import Poly, eval_expr
 
 LEVEL = "proof"
 EXPLANATION = (
     "Proof of the field-arithmetic clause: the bodies of FP2Value.__add__/__sub__/__mul__/__floordiv__/inverse/normalize "
-    "are read as integer polynomials in the twelve coefficient symbols and compared, by exact polynomial subtraction, "
-    "with the reference arithmetic of fractions N/D over Z[x]/(x^2+x+1) (c*x^2 -> -c*x - c; N1/D1 +- N2/D2 = "
-    "(N1*D2 +- N2*D1)/(D1*D2); products and quotients likewise). Identities over Z hold for all operands and all moduli. "
-    "Derived laws (commutativity, x-y = x+(0-y) up to the common denominator, (x//y)*y ~ x) are checked on the "
-    "implementation's own polynomials; intpow is checked to be square-and-multiply; codec arity of keys/attestations is "
-    "checked. Soundness/completeness of the zero-knowledge proofs and the Boneh scheme rest on number theory over run-time "
-    "keys and randomness and are NOT decided."
+    "are executed symbolically (every return path, local aliases substituted, conditional fast paths checked under the "
+    "equalities their guard establishes), read as integer polynomials in the twelve coefficient symbols and compared, by "
+    "exact polynomial subtraction, with the reference arithmetic of fractions N/D over Z[x]/(x^2+x+1) (c*x^2 -> -c*x - c; "
+    "N1/D1 +- N2/D2 = (N1*D2 +- N2*D1)/(D1*D2); products and quotients likewise). Identities over Z hold for all operands "
+    "and all moduli. Derived laws (commutativity, x-y = x+(0-y) up to the common denominator, (x//y)*y ~ x) are checked on "
+    "the implementation's own polynomials; intpow is checked to maintain the square-and-multiply invariant "
+    "acc * sq^n = self^|power| (abstract execution of the loop body for odd and even n); equality is checked by decision "
+    "table to be 'normalised quotient has numerator == denominator'; codec arity and integer layout of keys/attestations "
+    "are checked on the flattened byte concatenations and slice offsets (as polynomials). Structural necessary conditions "
+    "of the protocol clauses: the range verifier checks every Peng-Bao verification equation (as exponent vectors over the "
+    "commitments), a challenge response is consumed together with its pending-challenge entry, the range certainty needs a "
+    "verified response, an attestation is matched to the request it echoes. Soundness/completeness of the zero-knowledge "
+    "proofs and the Boneh scheme rest on number theory over run-time keys and randomness and are NOT decided."
 )
 
 VP = "ipv8/attestation/wallet/primitives/value.py"
+PS = "ipv8/attestation/wallet/primitives/structs.py"
 SYMS = ("a", "b", "c", "aC", "bC", "cC")
+DEFAULTS = {"a": 0, "b": 0, "c": 0, "aC": 1, "bC": 0, "cC": 0}
 
 
 def sym(e: ast.AST) -> str | None:
@@ -53,36 +62,487 @@ def operands():
     return n1, d1, n2, d2
 
 
-def method_result(ctx: Ctx, fi: FuncInfo) -> dict[str, Poly]:
-    """Polynomials of the six coefficients of the FP2Value returned by a straight-line operator method."""
-    env: dict[str, Poly] = {}
-    result = None
-    for st in fi.node.body:
-        if isinstance(st, ast.Expr) and isinstance(st.value, ast.Constant):
+# ------------------------------------------------------------------------------------------------------------------
+# Symbolic path execution of small functions.
+#
+# A function body is executed on expressions: every local is replaced by the expression it was assigned (so `m = self.mod`,
+# `neg = power < 0`, a hoisted sub-expression or a value returned through a local all disappear), every `if` / conditional
+# expression forks the path unless the path condition already decides it (same atom, negation, de Morgan, flipped
+# comparison - decided through match.fact_of), loops are summarised by a hook (default: everything the loop may write
+# becomes opaque).  The result is, per return path, (path condition, returned expression).  Rules below judge the
+# returned expressions, never the spelling of the statements that produced them.
+# ------------------------------------------------------------------------------------------------------------------
+_COMPS = (ast.ListComp, ast.SetComp, ast.GeneratorExp, ast.DictComp)
+
+
+def _lambda_params(n: ast.Lambda) -> set[str]:
+    a = n.args
+    out = {x.arg for x in a.posonlyargs + a.args + a.kwonlyargs}
+    if a.vararg:
+        out.add(a.vararg.arg)
+    if a.kwarg:
+        out.add(a.kwarg.arg)
+    return out
+
+
+def _subst(n, env: dict, shadow: frozenset = frozenset()):
+    """Copy of n (fields only: no parent links) with loads of names in env replaced by their expression; cast() is transparent."""
+    if isinstance(n, list):
+        return [_subst(x, env, shadow) for x in n]
+    if not isinstance(n, ast.AST):
+        return n
+    if isinstance(n, ast.Name):
+        if isinstance(n.ctx, ast.Load) and n.id in env and n.id not in shadow:
+            return env[n.id]                        # env expressions are never mutated, sharing is safe
+        return ast.Name(id=n.id, ctx=n.ctx)
+    if isinstance(n, ast.Call) and isinstance(n.func, ast.Name) and n.func.id == "cast" and len(n.args) == 2 and not n.keywords:
+        return _subst(n.args[1], env, shadow)
+    if isinstance(n, _COMPS):
+        bound: set[str] = set()
+        for g in n.generators:
+            bound |= names_in(g.target)
+        shadow = shadow | bound
+    elif isinstance(n, ast.Lambda):
+        shadow = shadow | _lambda_params(n)
+    new = n.__class__()
+    for f in n._fields:
+        if hasattr(n, f):
+            setattr(new, f, _subst(getattr(n, f), env, shadow))
+    return new
+
+
+def _raw_names(e: ast.AST) -> set[str]:
+    return {x.id for x in ast.walk(e) if isinstance(x, ast.Name)}
+
+
+def _replace(e, target, repl):
+    """Copy of e with the node `target` (identity) replaced by repl."""
+    if e is target:
+        return repl
+    if isinstance(e, list):
+        return [_replace(x, target, repl) for x in e]
+    if not isinstance(e, ast.AST):
+        return e
+    new = e.__class__()
+    for f in e._fields:
+        if hasattr(e, f):
+            setattr(new, f, _replace(getattr(e, f), target, repl))
+    return new
+
+
+def _first_ifexp(e: ast.AST):
+    stack = [e]
+    while stack:
+        n = stack.pop(0)
+        if isinstance(n, ast.IfExp):
+            return n
+        if isinstance(n, (ast.Lambda, *_COMPS)):
             continue
-        if isinstance(st, ast.Assert):
+        stack.extend(ast.iter_child_nodes(n))
+    return None
+
+
+def _fkey(f: Fact):
+    le = norm(f.left)
+    ri = norm(f.right) if f.right is not None else None
+    if f.op in ("eq", "is") and ri is not None and ri < le:
+        le, ri = ri, le
+    return f.op, le, ri
+
+
+def _facts(conds) -> list[Fact]:
+    out = []
+    for e, pol in conds:
+        out.extend(_atoms_with_polarity(e, pol))
+    return out
+
+
+def _known(conds) -> dict:
+    return {_fkey(f): f.pos for f in _facts(conds)}
+
+
+def _decide(test: ast.AST, known: dict):
+    """Three-valued truth of `test` given the atoms known on this path (None = not decided)."""
+    if isinstance(test, ast.Constant):
+        return bool(test.value)
+    if isinstance(test, ast.UnaryOp) and isinstance(test.op, ast.Not):
+        v = _decide(test.operand, known)
+        return None if v is None else not v
+    if isinstance(test, ast.BoolOp):
+        vals = [_decide(v, known) for v in test.values]
+        if isinstance(test.op, ast.And):
+            return False if any(v is False for v in vals) else True if all(v is True for v in vals) else None
+        return True if any(v is True for v in vals) else False if all(v is False for v in vals) else None
+    if isinstance(test, ast.Compare) and len(test.ops) > 1:
+        left = test.left
+        vals = []
+        for op, right in zip(test.ops, test.comparators):
+            vals.append(_decide(ast.Compare(left=left, ops=[op], comparators=[right]), known))
+            left = right
+        return False if any(v is False for v in vals) else True if all(v is True for v in vals) else None
+    f = fact_of(test, True)
+    k = _fkey(f)
+    if k in known:
+        return known[k] == f.pos
+    if f.op == "lt" and known.get(("lt", k[2], k[1])) is True:      # b < a holds, so a < b does not
+        return not f.pos
+    return None
+
+
+class _St:
+    __slots__ = ("env", "conds")
+
+    def __init__(self, env=None, conds=None) -> None:
+        self.env: dict[str, ast.AST] = dict(env or {})
+        self.conds: list[tuple[ast.AST, bool]] = list(conds or [])
+
+    def fork(self, cond=None) -> "_St":
+        s = _St(self.env, self.conds)
+        if cond is not None:
+            s.conds.append(cond)
+        return s
+
+    def invalidate(self, name: str) -> None:
+        """`name` gets a new value: expressions recorded earlier that mention the OLD value by its bare name become opaque."""
+        for k, v in list(self.env.items()):
+            if k != name and name in _raw_names(v):
+                self.env[k] = ast.Name(id=f"__stale_{k.lstrip('@').replace('.', '_')}__", ctx=ast.Load())
+        self.conds = [(e, p) for e, p in self.conds if name not in _raw_names(e)]
+
+    def set(self, name: str, value: ast.AST) -> None:
+        self.invalidate(name)
+        self.env[name] = value
+
+    def havoc(self, name: str) -> None:
+        self.invalidate(name)
+        self.env.pop(name, None)
+
+
+def _written_names(stmts) -> set[str]:
+    """Names a statement list may rebind or mutate through a method call / item store."""
+    out: set[str] = set()
+    for s in stmts:
+        for n in ast.walk(s):
+            if isinstance(n, ast.Name) and isinstance(n.ctx, (ast.Store, ast.Del)):
+                out.add(n.id)
+            elif isinstance(n, ast.Call) and isinstance(n.func, ast.Attribute):
+                b = n.func.value
+                while isinstance(b, (ast.Attribute, ast.Subscript)):
+                    b = b.value
+                if isinstance(b, ast.Name):
+                    out.add(b.id)
+            elif isinstance(n, (ast.Attribute, ast.Subscript)) and isinstance(n.ctx, (ast.Store, ast.Del)):
+                b = n.value
+                while isinstance(b, (ast.Attribute, ast.Subscript)):
+                    b = b.value
+                if isinstance(b, ast.Name):
+                    out.add(b.id)
+    return out
+
+
+class _Exec:
+    """run() -> [(state, returned expression)] for every path that returns (falling off the end returns None)."""
+
+    def __init__(self, fi: FuncInfo, loop_hook=None) -> None:
+        self.fi = fi
+        self.loop_hook = loop_hook
+        self.done: list[tuple[_St, ast.AST]] = []
+
+    def run(self):
+        for st in self._block(self.fi.node.body, _St()):
+            self.done.append((st, ast.Constant(value=None)))
+        return self.done
+
+    def _block(self, stmts, st: _St) -> list[_St]:
+        cur = [st]
+        for s in stmts:
+            nxt: list[_St] = []
+            for x in cur:
+                nxt.extend(self._stmt(s, x))
+            cur = nxt
+            if not cur:
+                break
+        return cur
+
+    def _expand(self, e: ast.AST, st: _St):
+        ife = _first_ifexp(e)
+        if ife is None:
+            return [(e, st)]
+        v = _decide(ife.test, _known(st.conds))
+        out = []
+        for pol in ((v,) if v is not None else (True, False)):
+            st2 = st if v is not None else st.fork((ife.test, pol))
+            out.extend(self._expand(_replace(e, ife, ife.body if pol else ife.orelse), st2))
+        return out
+
+    def _bind(self, t: ast.AST, value: ast.AST, st: _St) -> None:
+        if isinstance(t, ast.Name):
+            st.set(t.id, value)
+        elif isinstance(t, (ast.Tuple, ast.List)):
+            if any(isinstance(e, ast.Starred) for e in t.elts):
+                raise AnalysisError(f"undecided: {self.fi.qualname}: starred assignment target")
+            if isinstance(value, (ast.Tuple, ast.List)) and len(value.elts) == len(t.elts) and not any(isinstance(e, ast.Starred) for e in value.elts):
+                for e, v in zip(t.elts, value.elts):
+                    self._bind(e, v, st)
+            else:
+                for i, e in enumerate(t.elts):
+                    self._bind(e, ast.Subscript(value=value, slice=ast.Constant(value=i), ctx=ast.Load()), st)
+        elif isinstance(t, ast.Attribute) and chain(t) is not None:
+            st.env["@" + chain(t)] = value
+        else:
+            b = t
+            while isinstance(b, (ast.Attribute, ast.Subscript)):
+                b = b.value
+            if isinstance(b, ast.Name):
+                st.havoc(b.id)
+
+    def _stmt(self, s: ast.stmt, st: _St) -> list[_St]:  # noqa: C901, PLR0911, PLR0912
+        if isinstance(s, (ast.Pass, ast.Import, ast.ImportFrom, ast.FunctionDef, ast.AsyncFunctionDef, ast.ClassDef, ast.Global, ast.Nonlocal)):
+            return [st]
+        if isinstance(s, ast.Expr):
+            if isinstance(s.value, ast.Call):
+                for n in _written_names([s]):
+                    st.havoc(n)
+            return [st]
+        if isinstance(s, (ast.Assign, ast.AnnAssign)):
+            if s.value is None:
+                return [st]
+            out = []
+            targets = s.targets if isinstance(s, ast.Assign) else [s.target]
+            for v, st2 in self._expand(_subst(s.value, st.env), st):
+                st3 = st2.fork() if st2 is st else st2
+                for t in targets:
+                    self._bind(t, v, st3)
+                out.append(st3)
+            return out
+        if isinstance(s, ast.AugAssign):
+            if not isinstance(s.target, ast.Name):
+                for n in _written_names([s]):
+                    st.havoc(n)
+                return [st]
+            out = []
+            cur = st.env.get(s.target.id, ast.Name(id=s.target.id, ctx=ast.Load()))
+            for v, st2 in self._expand(_subst(s.value, st.env), st):
+                st3 = st2.fork() if st2 is st else st2
+                st3.set(s.target.id, ast.BinOp(left=cur, op=s.op, right=v))
+                out.append(st3)
+            return out
+        if isinstance(s, ast.Return):
+            val = _subst(s.value, st.env) if s.value is not None else ast.Constant(value=None)
+            for v, st2 in self._expand(val, st):
+                self.done.append((st2, v))
+            return []
+        if isinstance(s, ast.Raise):
+            return []
+        if isinstance(s, ast.Assert):
+            test = _subst(s.test, st.env)
+            v = _decide(test, _known(st.conds))
+            return [] if v is False else [st if v is True else st.fork((test, True))]
+        if isinstance(s, ast.If):
+            test = _subst(s.test, st.env)
+            v = _decide(test, _known(st.conds))
+            out = []
+            if v is not False:
+                out.extend(self._block(s.body, st.fork(None if v is True else (test, True))))
+            if v is not True:
+                out.extend(self._block(s.orelse, st.fork(None if v is False else (test, False))))
+            return out
+        if isinstance(s, (ast.While, ast.For)):
+            if self.loop_hook is not None:
+                r = self.loop_hook(self, s, st)
+                if r is not None:
+                    return r
+            for n in _written_names([s]):
+                st.havoc(n)
+            return [st]
+        if isinstance(s, ast.Delete):
+            for n in _written_names([s]):
+                st.havoc(n)
+            return [st]
+        raise AnalysisError(f"undecided: {self.fi.qualname}: statement `{norm(s)[:60]}` is outside the symbolic executor")
+
+
+def _paths(fi: FuncInfo, loop_hook=None):
+    return _Exec(fi, loop_hook).run()
+
+
+def _simp(n):
+    """Fold constant subscripts of list/tuple literals and of comprehensions over literal tuples: [f(t) for t in (x, y)][1] -> f(y)."""
+    if isinstance(n, list):
+        return [_simp(x) for x in n]
+    if not isinstance(n, ast.AST):
+        return n
+    new = n.__class__()
+    for f in n._fields:
+        if hasattr(n, f):
+            setattr(new, f, _simp(getattr(n, f)))
+    if isinstance(new, ast.Subscript) and isinstance(new.slice, ast.Constant) and isinstance(new.slice.value, int) and not isinstance(new.slice.value, bool):
+        elts = _literal_elements(new.value)
+        if elts is not None and -len(elts) <= new.slice.value < len(elts):
+            return elts[new.slice.value]
+    return new
+
+
+def _literal_elements(e: ast.AST):
+    """Elements of a list/tuple literal, or of a comprehension (one generator, no filter) over such a literal; None otherwise."""
+    if isinstance(e, (ast.List, ast.Tuple)) and not any(isinstance(x, ast.Starred) for x in e.elts):
+        return list(e.elts)
+    if isinstance(e, (ast.ListComp, ast.GeneratorExp)) and len(e.generators) == 1:
+        g = e.generators[0]
+        src = _literal_elements(g.iter)
+        if src is not None and not g.ifs and not g.is_async and isinstance(g.target, ast.Name):
+            return [_simp(_subst(e.elt, {g.target.id: x})) for x in src]
+    if isinstance(e, ast.Call) and isinstance(e.func, ast.Name) and e.func.id in ("list", "tuple") and len(e.args) == 1 and not e.keywords:
+        return _literal_elements(e.args[0])
+    return None
+
+
+def _and_parts(e: ast.AST) -> list[ast.AST]:
+    """Conjuncts of `a and b`, `a & b`, all([a, b]); constant True disappears."""
+    if isinstance(e, ast.BoolOp) and isinstance(e.op, ast.And):
+        return [p for v in e.values for p in _and_parts(v)]
+    if isinstance(e, ast.BinOp) and isinstance(e.op, ast.BitAnd):
+        return _and_parts(e.left) + _and_parts(e.right)
+    if isinstance(e, ast.Call) and isinstance(e.func, ast.Name) and e.func.id == "all" and len(e.args) == 1 and not e.keywords:
+        elts = _literal_elements(e.args[0])
+        if elts is not None:
+            return [p for v in elts for p in _and_parts(v)]
+    if isinstance(e, ast.Constant) and e.value is True:
+        return []
+    return [e]
+
+
+def _sign_of(conds, is_target):
+    """
+    What the path condition says about `t > 0` for the non-negative integer expression t selected by is_target:
+    (True | False | None, t).  `t > 0`, `0 < t`, `t >= 1`, `t != 0` and plain truthiness of t are the same test on t >= 0.
+    """
+    for f in _facts(conds):
+        le, ri = f.left, f.right
+        if f.op == "truthy" and is_target(le):
+            return f.pos, le
+        if f.op == "eq" and ri is not None:
+            if is_target(le) and const_value(ri) == 0:
+                return (not f.pos), le
+            if is_target(ri) and const_value(le) == 0:
+                return (not f.pos), ri
+        if f.op == "lt" and ri is not None:
+            if is_target(ri) and const_value(le) == 0:          # 0 < t
+                return f.pos, ri
+            if is_target(le) and const_value(ri) == 1:          # t < 1
+                return (not f.pos), le
+            if is_target(le) and const_value(ri) == 0 and f.pos:  # t < 0: impossible, treated as "not positive"
+                return False, le
+    return None, None
+
+
+def _describe(conds) -> str:
+    return " and ".join(("" if p else "not ") + "(" + norm(e) + ")" for e, p in conds) or "always"
+
+
+# ------------------------------------------------------------------------------------------------------------------
+# ring laws
+# ------------------------------------------------------------------------------------------------------------------
+def _fp2_coeffs(fi: FuncInfo, call: ast.AST, symbol_of, *, ignore_mod: str | None = None, moduli=("self.mod",)) -> dict[str, Poly]:
+    if not (isinstance(call, ast.Call) and chain(call.func) == "FP2Value" and call.args):
+        raise AnalysisError(f"{fi.qualname}: returns `{norm(call)[:60]}`, not `FP2Value(...)`")
+    if norm(call.args[0]) not in moduli:
+        raise AnalysisError(f"{fi.qualname}: result modulus is not self.mod")
+    if any(isinstance(a, ast.Starred) for a in call.args) or len(call.args) > 7:
+        raise AnalysisError(f"{fi.qualname}: unsupported constructor call `{norm(call)[:60]}`")
+    out = {k: Poly.const(v) for k, v in DEFAULTS.items()}
+    for i, a in enumerate(call.args[1:]):
+        out[SYMS[i]] = eval_expr(_simp(a), {}, symbol_of, ignore_mod=ignore_mod)
+    for k in call.keywords:
+        if k.arg not in out:
+            raise AnalysisError(f"{fi.qualname}: unknown keyword {k.arg}")
+        out[k.arg] = eval_expr(_simp(k.value), {}, symbol_of, ignore_mod=ignore_mod)
+    return out
+
+
+def _single_var(p: Poly) -> str | None:
+    if len(p.t) == 1:
+        (mon, co), = p.t.items()
+        if co == 1 and len(mon) == 1:
+            return mon[0]
+    return None
+
+
+def _restriction(conds) -> tuple[dict[str, Poly], bool]:
+    """
+    Equalities between coefficient symbols / constants that hold on a path, as a substitution; second value: the path
+    condition contains something that is neither such an equality nor a generic (open) condition, so a failing identity
+    cannot be blamed on the code.  Disequalities and `x is non-zero` hold generically and do not restrict an identity.
+    """
+    mapping: dict[str, Poly] = {}
+    opaque = False
+
+    def ev(e):
+        try:
+            return eval_expr(_simp(e), {}, sym)
+        except AnalysisError:
+            return None
+    for e, pol in conds:
+        if pol and norm(e) in ("self.mod == other.mod", "other.mod == self.mod"):
             continue
-        if isinstance(st, ast.Assign) and len(st.targets) == 1 and isinstance(st.targets[0], ast.Name):
-            env[st.targets[0].id] = eval_expr(st.value, env, sym)
-            continue
-        if isinstance(st, ast.Return) and isinstance(st.value, ast.Call) and chain(st.value.func) == "FP2Value":
-            c = st.value
-            if norm(c.args[0]) != "self.mod":
-                raise AnalysisError(f"{fi.qualname}: result modulus is not self.mod")
-            order = ["a", "b", "c", "aC", "bC", "cC"]
-            out = {"a": Poly.const(0), "b": Poly.const(0), "c": Poly.const(0), "aC": Poly.const(1), "bC": Poly.const(0), "cC": Poly.const(0)}
-            for i, a in enumerate(c.args[1:]):
-                out[order[i]] = eval_expr(a, env, sym)
-            for k in c.keywords:
-                if k.arg not in out:
-                    raise AnalysisError(f"{fi.qualname}: unknown keyword {k.arg}")
-                out[k.arg] = eval_expr(k.value, env, sym)
-            result = out
-            continue
-        raise AnalysisError(f"{fi.qualname}: statement `{norm(st)[:60]}` is not straight-line arithmetic")
-    if result is None:
+        facts = _atoms_with_polarity(e, pol)
+        if not facts:
+            opaque = True
+        for f in facts:
+            if f.op == "eq":
+                le, ri = ev(f.left), ev(f.right)
+                if le is None or ri is None:
+                    opaque = True
+                elif f.pos:
+                    le, ri = le.subst(mapping), ri.subst(mapping)
+                    if _single_var(le):
+                        mapping[_single_var(le)] = ri
+                    elif _single_var(ri):
+                        mapping[_single_var(ri)] = le
+                    elif not (le - ri).is_zero():
+                        opaque = True
+            elif f.op == "truthy":
+                le = ev(f.left)
+                if le is None:
+                    opaque = True
+                elif not f.pos:
+                    le = le.subst(mapping)
+                    if _single_var(le):
+                        mapping[_single_var(le)] = Poly.const(0)
+                    elif not le.is_zero():
+                        opaque = True
+            else:
+                opaque = True
+    return mapping, opaque
+
+
+def _apply(p: Poly, mapping: dict[str, Poly]) -> Poly:
+    for _ in range(len(mapping) + 1):
+        q = p.subst(mapping)
+        if q == p:
+            break
+        p = q
+    return p
+
+
+def method_results(ctx: Ctx, fi: FuncInfo) -> list[tuple[dict[str, Poly], list, dict[str, Poly], bool]]:
+    """Every return path of an operator method: (six coefficient polynomials, path condition, substitution, opaque)."""
+    out = []
+    for st, ret in _paths(fi):
+        mapping, opaque = _restriction(st.conds)
+        conds = [(e, p) for e, p in st.conds if not (p and norm(e) in ("self.mod == other.mod", "other.mod == self.mod"))]
+        out.append((_fp2_coeffs(fi, ret, sym), conds, mapping, opaque))
+    if not out:
         raise AnalysisError(f"{fi.qualname}: no `return FP2Value(...)`")
-    return result
+    return out
+
+
+def method_result(ctx: Ctx, fi: FuncInfo) -> dict[str, Poly]:
+    """Polynomials of the six coefficients of the FP2Value returned on the general (unrestricted) path of an operator method."""
+    gen = [r for r, _, mapping, _ in method_results(ctx, fi) if not mapping]
+    if not gen:
+        raise AnalysisError(f"undecided: {fi.qualname}: no unrestricted return path")
+    return gen[0]
 
 
 def oblige(ctx: Ctx, fi: FuncInfo, what: str, got: Poly, want: Poly) -> None:
@@ -93,29 +553,62 @@ def oblige(ctx: Ctx, fi: FuncInfo, what: str, got: Poly, want: Poly) -> None:
               f"{fi.name}: coefficient `{what}` differs from the field arithmetic of Z[x]/(x^2+x+1): implementation - reference = {diff}")
 
 
+_COEFF_LABELS = (("a", "a (numerator, x^0)"), ("b", "b (numerator, x^1)"), ("c", "c (numerator, x^2)"),
+                 ("aC", "aC (denominator, x^0)"), ("bC", "bC (denominator, x^1)"), ("cC", "cC (denominator, x^2)"))
+
+
+def _oblige_operator(ctx: Ctx, fi: FuncInfo, num, den) -> dict[str, Poly]:
+    """All return paths of one operator against the reference fraction num/den; returns the general path's polynomials."""
+    want = {"a": num[0], "b": num[1], "c": Poly.const(0), "aC": den[0], "bC": den[1], "cC": Poly.const(0)}
+    general = None
+    for r, conds, mapping, opaque in method_results(ctx, fi):
+        if not mapping:
+            # general path (possibly the fall-through of a guard: a condition that is not an equality holds generically)
+            if general is None:
+                general = r
+            suffix = "" if not conds else f" [path: {_describe(conds)}]"
+            for k, lab in _COEFF_LABELS:
+                if conds and opaque and not (r[k] - want[k]).is_zero():
+                    raise AnalysisError(f"undecided: {fi.qualname}: coefficient {k} differs from the reference on the path `{_describe(conds)}`, "
+                                        "whose condition is not understood")
+                oblige(ctx, fi, lab + suffix, r[k], want[k])
+            continue
+        # restricted path (fast path): the identity has to hold under the equalities its guard establishes - coefficient by
+        # coefficient, or at least as the same fraction (cross-multiplied in Z[x]/(x^2+x+1))
+        got = {k: _apply(p, mapping) for k, p in r.items()}
+        ref = {k: _apply(p, mapping) for k, p in want.items()}
+        same = all((got[k] - ref[k]).is_zero() for k in SYMS)
+        if not same:
+            gn, gd = reduce3(got["a"], got["b"], got["c"]), reduce3(got["aC"], got["bC"], got["cC"])
+            lhs, rhs = mul2(gn, (ref["aC"], ref["bC"])), mul2((ref["a"], ref["b"]), gd)
+            same = all((x - y).is_zero() for x, y in zip(lhs, rhs)) and not (gd[0].is_zero() and gd[1].is_zero())
+        if not same and opaque:
+            raise AnalysisError(f"undecided: {fi.qualname}: result on the path `{_describe(conds)}` differs from the reference and the path condition is not understood")
+        ctx.oblige(same)
+        bad = next((f"{k}: implementation - reference = {got[k] - ref[k]}" for k in SYMS if not (got[k] - ref[k]).is_zero()), "")
+        ctx.check(same, "ring-laws", fi, f"{fi.name}: path `{_describe(conds)}`",
+                  f"{fi.name}: the result returned when {_describe(conds)} is the reference fraction under these equalities",
+                  f"{fi.name}: the shortcut taken when {_describe(conds)} does not return the field result: the guard establishes only "
+                  f"{ {k: str(v) for k, v in mapping.items()} }, and under these equalities the returned value is not num/den of Z[x]/(x^2+x+1) "
+                  f"({bad}) - an operand the guard does not exclude (e.g. a non-zero x^2 coefficient) gets a wrong result")
+    if general is None:
+        raise AnalysisError(f"undecided: {fi.qualname}: no unrestricted return path")
+    return general
+
+
 def rule_ring_laws(ctx: Ctx) -> None:
     repo = ctx.repo
     cls = repo.cls("FP2Value", VP)
     n1, d1, n2, d2 = operands()
-    res = {}
-    for name in ("__add__", "__sub__", "__mul__", "__floordiv__"):
-        fi = cls.methods[name]
-        res[name] = method_result(ctx, fi)
     ref = {
         "__mul__": (mul2(n1, n2), mul2(d1, d2)),
         "__floordiv__": (mul2(n1, d2), mul2(d1, n2)),
         "__add__": (tuple(x + y for x, y in zip(mul2(n1, d2), mul2(n2, d1))), mul2(d1, d2)),
         "__sub__": (tuple(x - y for x, y in zip(mul2(n1, d2), mul2(n2, d1))), mul2(d1, d2)),
     }
+    res = {}
     for name, (num, den) in ref.items():
-        fi = cls.methods[name]
-        r = res[name]
-        oblige(ctx, fi, "a (numerator, x^0)", r["a"], num[0])
-        oblige(ctx, fi, "b (numerator, x^1)", r["b"], num[1])
-        oblige(ctx, fi, "c (numerator, x^2)", r["c"], Poly.const(0))
-        oblige(ctx, fi, "aC (denominator, x^0)", r["aC"], den[0])
-        oblige(ctx, fi, "bC (denominator, x^1)", r["bC"], den[1])
-        oblige(ctx, fi, "cC (denominator, x^2)", r["cC"], Poly.const(0))
+        res[name] = _oblige_operator(ctx, cls.methods[name], num, den)
     # derived laws on the implementation's own polynomials
     swap = {f"s_{k}": f"o_{k}" for k in SYMS} | {f"o_{k}": f"s_{k}" for k in SYMS}
     for name in ("__add__", "__mul__"):
@@ -151,168 +644,593 @@ def rule_ring_laws(ctx: Ctx) -> None:
         ctx.oblige(ok)
         ctx.check(ok, "ring-laws", fi, f"(x // y) * y == x [{lab}]", f"(x // y) * y and x are the same fraction ({lab})",
                   f"(x // y) * y != x as fractions ({lab})")
-    # inverse swaps numerator and denominator
-    inv = method_result(ctx, cls.methods["inverse"])
+    # inverse swaps numerator and denominator (every return path, under its own equalities)
+    invf = cls.methods["inverse"]
     pairs = {"a": "aC", "b": "bC", "c": "cC", "aC": "a", "bC": "b", "cC": "c"}
-    for k, src in pairs.items():
-        oblige(ctx, cls.methods["inverse"], f"{k} <- self.{src}", inv[k], V("s", src))
-    # normalize: every coefficient scaled by the same mp = modinv(aC)
-    nz = cls.methods["normalize"]
-    mp = single_def(nz, "mp")
-    ok = mp is not None and norm(mp[0]) == "_modinv(self.aC % self.mod, self.mod)"
-    ctx.oblige(ok)
-    ctx.check(ok, "ring-laws", nz, nz.node, "normalize: mp = modinv(aC)", "normalize does not scale by the inverse of aC")
-    envn = {"mp": Poly.var("mp")}
-    branch = [s for s in walk_no_nested(nz.node) if isinstance(s, ast.If) and norm(s.test) == "mp > 0"]
-    ok = len(branch) == 1
-    if ok:
-        local = dict(envn)
-        for st in branch[0].body:
-            if isinstance(st, ast.Assign) and isinstance(st.targets[0], ast.Name):
-                local[st.targets[0].id] = eval_expr(st.value, local, sym, ignore_mod="self.mod")
-            elif isinstance(st, ast.Return):
-                c = st.value
-                names = ["a", "b", "c", "aC", "bC", "cC"]
-                for i, a in enumerate(c.args[1:]):
-                    got = eval_expr(a, local, sym, ignore_mod="self.mod")
-                    want = Poly.const(1) if names[i] == "aC" else V("s", names[i]) * Poly.var("mp")
-                    oblige(ctx, nz, f"normalize {names[i]}", got, want)
-    else:
-        ctx.oblige(False)
-        ctx.check(False, "ring-laws", nz, nz.node, "normalize has the mp > 0 branch", "normalize lost its scaling branch")
+    for r, conds, mapping, opaque in method_results(ctx, invf):
+        for k, src in pairs.items():
+            got, want = _apply(r[k], mapping), _apply(V("s", src), mapping)
+            if conds and opaque and not (got - want).is_zero():
+                raise AnalysisError(f"undecided: {invf.qualname}: path `{_describe(conds)}` is not understood")
+            oblige(ctx, invf, f"{k} <- self.{src}" + (f" [path: {_describe(conds)}]" if conds else ""), got, want)
+    _check_normalize(ctx, cls)
     mi = repo.func(VP, "_modinv")
     ok = _modinv_invariant(ctx, mi)
     ctx.oblige(ok)
     ctx.check(ok, "ring-laws", mi, mi.node, "_modinv maintains x1*e = a and x2*e = b (mod m) and returns x1 % m when b reaches 0",
               "_modinv no longer maintains the extended-Euclid invariant: it does not return the modular inverse")
-    # __eq__ compares the normalised quotient with one
-    eq = cls.methods["__eq__"]
-    d = single_def(eq, "divd")
-    ok = d is not None and norm(d[0]) == "(self // other).normalize()" and any(
-        isinstance(r, ast.Return) and norm(r.value) == "all([divd.a == divd.aC, divd.b == divd.bC, divd.c == divd.cC])" for r in ast.walk(eq.node))
+    _check_eq(ctx, cls)
+    _check_init(ctx, cls)
+
+
+def _is_modinv(e: ast.AST) -> bool:
+    return isinstance(e, ast.Call) and chain(e.func) == "_modinv"
+
+
+def _is_mp(e: ast.AST) -> bool:
+    """The modular inverse of this value's own x^0 denominator coefficient (self.aC is stored reduced, so `% self.mod` is optional)."""
+    return _is_modinv(e) and len(e.args) == 2 and not e.keywords and norm(e.args[1]) == "self.mod" and \
+        norm(e.args[0]) in ("self.aC % self.mod", "self.aC")
+
+
+def _check_normalize(ctx: Ctx, cls) -> None:
+    """normalize: on the path where mp = modinv(aC) is positive, every coefficient is scaled by the same mp and aC becomes 1."""
+    nz = cls.methods["normalize"]
+
+    def symn(e):
+        if _is_mp(e):
+            return "mp"
+        if _is_modinv(e):
+            return "mp_of_something_else"
+        return sym(e)
+    scaled, unguarded, wrong_target = [], [], False
+    for st, ret in _paths(nz):
+        v, target = _sign_of(st.conds, _is_modinv)
+        if v is not None and not _is_mp(target):
+            wrong_target = True
+        if v is True:
+            scaled.append((st, ret))
+        elif v is None and isinstance(ret, ast.Call) and any(_is_modinv(x) for x in ast.walk(ret)):
+            unguarded.append((st, ret))
+    ok = bool(scaled) and not wrong_target
     ctx.oblige(ok)
-    ctx.check(ok, "ring-laws", eq, eq.node, "equality = normalised quotient has numerator == denominator", "FP2Value equality is no longer quotient == 1")
-    # constructor reduces all six coefficients modulo mod
+    ctx.check(ok, "ring-laws", nz, nz.node, "normalize: mp = modinv(aC)", "normalize does not scale by the inverse of aC")
+    ok = bool(scaled) and not unguarded
+    ctx.oblige(ok)
+    ctx.check(ok, "ring-laws", nz, nz.node, "normalize has the mp > 0 branch",
+              "normalize lost its scaling branch: the scaled value is not (only) returned when the inverse of aC exists")
+    for n, (st, ret) in enumerate(scaled):
+        r = _fp2_coeffs(nz, ret, symn, ignore_mod="self.mod")
+        for k in SYMS:
+            want = Poly.const(1) if k == "aC" else V("s", k) * Poly.var("mp")
+            oblige(ctx, nz, f"normalize {k}" + (f" [path {n + 1}]" if n else ""), r[k], want)
+
+
+def _check_eq(ctx: Ctx, cls) -> None:
+    """
+    __eq__ by decision table: for an FP2Value operand it returns True exactly when the three coefficient pairs (a, aC), (b, bC),
+    (c, cC) of the normalised quotient agree.  Atoms are the comparisons of two coefficients of the quotient; a comparison of
+    another pair (b == aC) is an independent atom, so a result that depends on it differs from the reference for some values.
+    """
+    eq = cls.methods["__eq__"]
+    quotients = ("(self // other).normalize()",)
+    ref = (("a", "aC"), ("b", "bC"), ("c", "cC"))
+
+    def atom(e):
+        if isinstance(e, ast.Compare) and len(e.ops) == 1 and isinstance(e.ops[0], (ast.Eq, ast.NotEq)):
+            le, ri = e.left, e.comparators[0]
+            if isinstance(le, ast.Attribute) and isinstance(ri, ast.Attribute) and norm(le.value) == norm(ri.value) and norm(le.value) in quotients \
+                    and le.attr in SYMS and ri.attr in SYMS and le.attr != ri.attr:
+                return tuple(sorted((le.attr, ri.attr))), isinstance(e.ops[0], ast.Eq)
+        return None
+
+    def tv(e, asg):  # noqa: PLR0911
+        if isinstance(e, ast.Constant):
+            return bool(e.value)
+        if isinstance(e, ast.UnaryOp) and isinstance(e.op, ast.Not):
+            v = tv(e.operand, asg)
+            return None if v is None else not v
+        parts = None
+        if isinstance(e, ast.BoolOp):
+            parts, conj = e.values, isinstance(e.op, ast.And)
+        elif isinstance(e, ast.BinOp) and isinstance(e.op, (ast.BitAnd, ast.BitOr)):
+            parts, conj = [e.left, e.right], isinstance(e.op, ast.BitAnd)
+        elif isinstance(e, ast.Call) and isinstance(e.func, ast.Name) and e.func.id in ("all", "any") and len(e.args) == 1 and not e.keywords:
+            parts, conj = _literal_elements(e.args[0]), e.func.id == "all"
+        if parts is not None:
+            vals = [tv(p, asg) for p in parts]
+            if conj:
+                return False if any(v is False for v in vals) else True if all(v is True for v in vals) else None
+            return True if any(v is True for v in vals) else False if all(v is False for v in vals) else None
+        if isinstance(e, ast.Call) and chain(e.func) == "isinstance" and len(e.args) == 2 and norm(e.args[0]) == "other" and norm(e.args[1]) == "FP2Value":
+            return asg["inst"]
+        a = atom(e)
+        if a is not None:
+            return asg[a[0]] == a[1]
+        return None
+    paths = _paths(eq)
+    keys = list(ref)
+    for st, ret in paths:
+        for e in [c for c, _ in st.conds] + [ret]:
+            for x in ast.walk(e):
+                a = atom(x)
+                if a is not None and a[0] not in keys:
+                    keys.append(a[0])
+    if len(keys) > 8:
+        raise AnalysisError(f"undecided: {eq.qualname}: {len(keys)} different coefficient comparisons")
+    ok = True
+    why = ""
+    for vals_ in itertools.product((True, False), repeat=len(keys)):
+        asg = dict(zip(keys, vals_))
+        asg["inst"] = True
+        live = []
+        for st, ret in paths:
+            vals = [None if (v := tv(e, asg)) is None else v == p for e, p in st.conds]
+            if any(v is False for v in vals):
+                continue
+            if any(v is None for v in vals):
+                raise AnalysisError(f"undecided: {eq.qualname}: path condition `{_describe(st.conds)}` is not a comparison of the normalised quotient")
+            live.append(ret)
+        if len(live) != 1:
+            raise AnalysisError(f"undecided: {eq.qualname}: {len(live)} paths for one outcome of the coefficient comparisons")
+        got = tv(live[0], asg)
+        if got is None:
+            raise AnalysisError(f"undecided: {eq.qualname}: returns `{norm(live[0])[:80]}`, not a combination of the quotient's coefficient comparisons")
+        if got != all(asg[k] for k in ref) and ok:
+            ok = False
+            why = "with " + ", ".join(f"{x}{'==' if asg[(x, y)] else '!='}{y}" for x, y in keys) + f" of the normalised quotient it returns {got}"
+    ctx.oblige(ok)
+    ctx.check(ok, "ring-laws", eq, eq.node, "equality = normalised quotient has numerator == denominator",
+              "FP2Value equality is no longer quotient == 1: " + why)
+
+
+def _check_init(ctx: Ctx, cls) -> None:
+    """constructor reduces all six coefficients modulo mod"""
     init = cls.methods["__init__"]
-    ok = any(isinstance(s, ast.Assign) and norm(s.value) == "(a % mod, b % mod, c % mod, aC % mod, bC % mod, cC % mod)" and
-             norm(s.targets[0]) == "(self.a, self.b, self.c, self.aC, self.bC, self.cC)" for s in walk_no_nested(init.node))
+    p = init.params()
+    ok = len(p) == 8
+    if ok:
+        paths = _paths(init)
+        ok = bool(paths)
+        for st, _ in paths:
+            for i, k in enumerate(SYMS):
+                v = st.env.get(f"@self.{k}")
+                ok = ok and v is not None and norm(v) == f"{p[2 + i]} % {p[1]}"
+            v = st.env.get("@self.mod")
+            ok = ok and v is not None and norm(v) == p[1]
     ctx.oblige(ok)
     ctx.check(ok, "ring-laws", init, init.node, "constructor stores every coefficient reduced modulo mod", "constructor no longer reduces/stores the six coefficients")
 
 
-def _modinv_invariant(ctx: Ctx, mi: FuncInfo) -> bool:
+def _modinv_invariant(ctx: Ctx, mi: FuncInfo) -> bool:  # noqa: C901, PLR0911, PLR0912
     """
     Invariant I: x1*e - a and x2*e - b are multiples of m.  Checked symbolically: with a = x1*e - k1*m and
     b = x2*e - k2*m, one loop iteration (q, r = divmod(a, b) => r = a - q*b) yields new values for which
-    new_x1*e - new_a and new_x2*e - new_b are polynomials every term of which contains m.
+    new_x1*e - new_a and new_x2*e - new_b are polynomials every term of which contains m; (a, b) becomes (b, a mod b),
+    so the loop is Euclid's and ends with a = gcd.  The roles of the four locals are taken from the code (the returned
+    one, the one the loop tests, the dividend, the remaining one), not from their names.
     """
     e_, m_ = mi.params()
-    init = {}
-    loop = None
-    ret = None
-    for st in mi.node.body:
-        if isinstance(st, ast.Assign) and isinstance(st.targets[0], ast.Tuple) and isinstance(st.value, ast.Tuple):
-            for t, v in zip(st.targets[0].elts, st.value.elts):
-                init[norm(t)] = norm(v)
-        elif isinstance(st, ast.While):
-            loop = st
-        elif isinstance(st, ast.Return):
-            ret = st
-    if loop is None or ret is None or init != {"x1": "1", "x2": "0", "a": e_, "b": m_}:
+    seen = {}
+
+    def hook(ex, loop, st):
+        seen["loop"] = loop
+        seen["pre"] = st.fork()
+        return None                                                    # default summary: written names become opaque
+    paths = _paths(mi, hook)
+    loop = seen.get("loop")
+    if loop is None or not isinstance(loop, ast.While) or loop.orelse or len(paths) != 1:
         return False
-    if norm(loop.test) not in ("b > 0", "b != 0", "b") or norm(ret.value) != f"x1 % {m_}":
+    pre = seen["pre"].env
+    ret = paths[0][1]
+    if not (isinstance(ret, ast.BinOp) and isinstance(ret.op, ast.Mod) and isinstance(ret.left, ast.Name) and norm(ret.right) == m_):
         return False
+    x1 = ret.left.id
+    sign, tgt = _sign_of([(loop.test, True)], lambda x: isinstance(x, ast.Name))
+    if sign is not True:
+        return False
+    b = tgt.id
+    init = {k: norm(v) for k, v in pre.items()}
+    if init.get(x1) != "1" or init.get(b) != m_:
+        return False
+    a = [k for k, v in init.items() if v == e_ and k not in (x1, b)]
+    x2 = [k for k, v in init.items() if v == "0" and k not in (x1, b)]
+    if len(a) != 1 or len(x2) != 1:
+        return False
+    a, x2 = a[0], x2[0]
     X1, X2, E, M, K1, K2, Q = (Poly.var(n) for n in ("x1", "x2", "e", "m", "k1", "k2", "q"))
-    env = {"x1": X1, "x2": X2, "a": X1 * E - K1 * M, "b": X2 * E - K2 * M}
+    env = {x1: X1, x2: X2, a: X1 * E - K1 * M, b: X2 * E - K2 * M}
+    a0, b0 = env[a], env[b]
+
+    def ev(x):
+        # a // b -> q ; a % b -> a - q*b   (only while a and b still hold this iteration's values)
+        def fix(n):
+            if isinstance(n, ast.BinOp) and isinstance(n.op, (ast.FloorDiv, ast.Mod)) and norm(n.left) == a and norm(n.right) == b:
+                if env[a] is not a0 or env[b] is not b0:
+                    raise AnalysisError(f"undecided: {mi.qualname}: quotient taken after a/b were updated")
+                return ast.Name(id="__q__", ctx=ast.Load()) if isinstance(n.op, ast.FloorDiv) else ast.Name(id="__r__", ctx=ast.Load())
+            if isinstance(n, list):
+                return [fix(y) for y in n]
+            if not isinstance(n, ast.AST):
+                return n
+            new = n.__class__()
+            for f in n._fields:
+                if hasattr(n, f):
+                    setattr(new, f, fix(getattr(n, f)))
+            return new
+        return eval_expr(fix(x), {**env, "__q__": Q, "__r__": a0 - Q * b0}, lambda y: None)
     for st in loop.body:
-        if isinstance(st, ast.Assign) and isinstance(st.targets[0], ast.Tuple) and isinstance(st.value, ast.Call) and chain(st.value.func) == "divmod":
-            if [norm(a) for a in st.value.args] != ["a", "b"] or len(st.targets[0].elts) != 2:
-                return False
-            qn, rn = (norm(t) for t in st.targets[0].elts)
-            env[qn] = Q
-            env[rn] = env["a"] - Q * env["b"]
-        elif isinstance(st, ast.Assign) and isinstance(st.targets[0], ast.Name):
-            env[st.targets[0].id] = eval_expr(st.value, env, lambda x: None)
-        elif isinstance(st, ast.Assign) and isinstance(st.targets[0], ast.Tuple) and isinstance(st.value, ast.Tuple):
-            vals = [eval_expr(v, env, lambda x: None) for v in st.value.elts]
-            for t, v in zip(st.targets[0].elts, vals):
-                env[norm(t)] = v
+        if isinstance(st, ast.Assign) and len(st.targets) == 1:
+            t, v = st.targets[0], st.value
+            if isinstance(t, ast.Tuple) and isinstance(v, ast.Call) and chain(v.func) == "divmod":
+                if [norm(x) for x in v.args] != [a, b] or len(t.elts) != 2 or env[a] is not a0 or env[b] is not b0:
+                    return False
+                qn, rn = (norm(x) for x in t.elts)
+                env[qn] = Q
+                env[rn] = a0 - Q * b0
+            elif isinstance(t, ast.Name):
+                env[t.id] = ev(v)
+            elif isinstance(t, ast.Tuple) and isinstance(v, ast.Tuple) and len(t.elts) == len(v.elts) and all(isinstance(x, ast.Name) for x in t.elts):
+                vals = [ev(x) for x in v.elts]
+                for x, val in zip(t.elts, vals):
+                    env[x.id] = val
+            else:
+                raise AnalysisError(f"undecided: {mi.qualname}: loop statement `{norm(st)[:60]}`")
+        elif isinstance(st, ast.AugAssign) and isinstance(st.target, ast.Name) and isinstance(st.op, (ast.Add, ast.Sub, ast.Mult)):
+            env[st.target.id] = ev(ast.BinOp(left=ast.Name(id=st.target.id, ctx=ast.Load()), op=st.op, right=st.value))
+        elif isinstance(st, ast.Expr) and isinstance(st.value, ast.Constant):
+            continue
         else:
-            return False
-    for xv, av in (("x1", "a"), ("x2", "b")):
+            raise AnalysisError(f"undecided: {mi.qualname}: loop statement `{norm(st)[:60]}`")
+    for xv, av in ((x1, a), (x2, b)):
         diff = env[xv] * E - env[av]
         if any("m" not in mon for mon in diff.t):
             return False
-    # progress: new b is the remainder r (strictly smaller than old b)
-    return True
+    # progress: (a, b) <- (b, a mod b)
+    return (env[a] - b0).is_zero() and (env[b] - (a0 - Q * b0)).is_zero()
 
 
-def rule_intpow(ctx: Ctx) -> None:
+# ------------------------------------------------------------------------------------------------------------------
+# intpow: square-and-multiply
+# ------------------------------------------------------------------------------------------------------------------
+_ACC = "__intpow_acc__"
+
+
+def _parity(test: ast.AST, n: str):
+    """True if `test` says "n is odd", False if it says "n is even", None if it is not a parity test of n."""
+    facts = _atoms_with_polarity(test, True)
+    if len(facts) != 1:
+        return None
+    f = facts[0]
+
+    def is_bit(e):
+        return isinstance(e, ast.BinOp) and isinstance(e.left, ast.Name) and e.left.id == n and \
+            ((isinstance(e.op, ast.Mod) and const_value(e.right) == 2) or (isinstance(e.op, ast.BitAnd) and const_value(e.right) == 1))
+    if f.op == "truthy" and is_bit(f.left):
+        return f.pos
+    if f.op == "eq":
+        for x, y in ((f.left, f.right), (f.right, f.left)):
+            if is_bit(x) and const_value(y) in (0, 1):
+                return f.pos == (const_value(y) == 1)
+    return None
+
+
+def _halves(s: ast.stmt, n: str) -> bool:
+    """n = n // 2, n //= 2, n >>= 1, n = n >> 1"""
+    def half(op, right):
+        return (isinstance(op, ast.FloorDiv) and const_value(right) == 2) or (isinstance(op, ast.RShift) and const_value(right) == 1)
+    if isinstance(s, ast.AugAssign) and isinstance(s.target, ast.Name) and s.target.id == n:
+        return half(s.op, s.value)
+    if isinstance(s, ast.Assign) and len(s.targets) == 1 and isinstance(s.targets[0], ast.Name) and s.targets[0].id == n:
+        v = s.value
+        return isinstance(v, ast.BinOp) and isinstance(v.left, ast.Name) and v.left.id == n and half(v.op, v.right)
+    return False
+
+
+def _intpow_body(fi: FuncInfo, body, n: str, odd: bool):
+    """
+    One loop iteration on formal values: every local X is the monomial {X: 1}, products add exponents.  Returns
+    (final monomials, n halved exactly once and only after its parity was read) for an odd / even n.
+    """
+    env: dict[str, dict[str, int]] = {}
+    state = {"halved": 0, "bad": False}
+
+    def mono(e):
+        if isinstance(e, ast.Name):
+            return dict(env.get(e.id, {e.id: 1}))
+        if isinstance(e, ast.BinOp) and isinstance(e.op, ast.Mult):
+            le, ri = mono(e.left), mono(e.right)
+            for k, v in ri.items():
+                le[k] = le.get(k, 0) + v
+            return le
+        raise AnalysisError(f"undecided: {fi.qualname}: loop expression `{norm(e)[:60]}`")
+
+    def block(stmts):
+        for s in stmts:
+            if isinstance(s, ast.If):
+                p = _parity(s.test, n)
+                if p is None:
+                    raise AnalysisError(f"undecided: {fi.qualname}: loop condition `{norm(s.test)[:60]}`")
+                if state["halved"]:
+                    state["bad"] = True                    # parity of the already halved exponent
+                block(s.body if p == odd else s.orelse)
+            elif _halves(s, n):
+                state["halved"] += 1
+            elif isinstance(s, ast.AugAssign) and isinstance(s.target, ast.Name) and isinstance(s.op, ast.Mult) and s.target.id != n:
+                env[s.target.id] = mono(ast.BinOp(left=ast.Name(id=s.target.id, ctx=ast.Load()), op=ast.Mult(), right=s.value))
+            elif isinstance(s, ast.Assign) and len(s.targets) == 1 and isinstance(s.targets[0], ast.Name) and s.targets[0].id != n:
+                env[s.targets[0].id] = mono(s.value)
+            elif isinstance(s, ast.Pass) or (isinstance(s, ast.Expr) and isinstance(s.value, ast.Constant)):
+                continue
+            else:
+                raise AnalysisError(f"undecided: {fi.qualname}: loop statement `{norm(s)[:60]}`")
+    block(body)
+    return env, state["halved"] == 1 and not state["bad"]
+
+
+def rule_intpow(ctx: Ctx) -> None:  # noqa: C901, PLR0912, PLR0915
+    """
+    intpow(power) is repeated multiplication: the loop keeps  acc * sq^n == self^|power|  (n odd: acc*sq, always sq*sq,
+    n // 2), starts from acc = 1, sq = self, n = |power|, runs until n == 0 and the result is acc, inverted for power < 0.
+    """
     fi = ctx.repo.cls("FP2Value", VP).methods["intpow"]
-    loops = [l for l in walk_no_nested(fi.node) if isinstance(l, ast.While)]
-    ok = len(loops) == 1 and norm(loops[0].test) == "n > 0"
-    if ok:
-        body = loops[0].body
-        txt = [norm(s) if not isinstance(s, ast.If) else "if " + norm(s.test) + ": " + "; ".join(norm(x) for x in s.body) for s in body]
-        ok = txt == ["if n % 2 == 1: R *= U", "U *= U", "n = n // 2"]
-    R = single_def(fi, "R")
-    okR = any(v is not None and norm(v) == "FP2Value(self.mod, 1)" for _, v, _ in local_defs(fi, "R"))
-    okU = any(v is not None and norm(v) == "self" for _, v, _ in local_defs(fi, "U"))
-    okn = any(v is not None and norm(v) == "-power if power < 0 else power" for _, v, _ in local_defs(fi, "n"))
-    rets = [r for r in walk_no_nested(fi.node) if isinstance(r, ast.Return)]
-    okr = len(rets) == 1 and norm(rets[0].value) == "R.inverse().normalize() if power < 0 else R"
-    good = ok and okR and okU and okn and okr
+    power = fi.params()[1]
+    seen: dict = {}
+    verdict = {"loop": False, "R0": False, "U0": False, "n0": False, "result": False}
+
+    def is_abs(e, conds) -> bool:
+        if isinstance(e, ast.Call) and chain(e.func) == "abs" and len(e.args) == 1 and norm(e.args[0]) == power:
+            return True
+        neg = _decide(ast.Compare(left=ast.Name(id=power, ctx=ast.Load()), ops=[ast.Lt()], comparators=[ast.Constant(value=0)]), _known(conds))
+        if neg is True:
+            return isinstance(e, ast.UnaryOp) and isinstance(e.op, ast.USub) and norm(e.operand) == power
+        if neg is False:
+            return norm(e) == power
+        return False
+
+    def hook(ex, loop, st):
+        if "loop" in seen and seen["loop"] is not loop:
+            seen["many"] = True
+        seen["loop"] = loop
+        if not isinstance(loop, ast.While) or loop.orelse:
+            return None
+        sign, tgt = _sign_of([(loop.test, True)], lambda x: isinstance(x, ast.Name))
+        if sign is not True or len(_atoms_with_polarity(loop.test, True)) != 1:
+            return None
+        n = tgt.id
+        odd, okodd = _intpow_body(fi, loop.body, n, True)
+        even, okeven = _intpow_body(fi, loop.body, n, False)
+        sq = [x for x in odd if odd[x] == {x: 2} and even.get(x) == {x: 2}]
+        accs = [x for x in odd if len(sq) == 1 and x != sq[0] and odd[x] == {x: 1, sq[0]: 1} and even.get(x, {x: 1}) == {x: 1}]
+        good = okodd and okeven and len(sq) == 1 and len(accs) >= 1      # other names are temporaries: only acc is marked below
+        seen.setdefault("loops_ok", []).append(good)
+        if good:
+            acc, u = accs[0], sq[0]
+            r0, u0, n0 = st.env.get(acc), st.env.get(u), st.env.get(n)
+            one = False
+            if r0 is not None and isinstance(r0, ast.Call) and chain(r0.func) == "FP2Value":
+                try:
+                    co = _fp2_coeffs(fi, r0, sym)
+                    one = all((co[k] - Poly.const(DEFAULTS[k] if k != "a" else 1)).is_zero() for k in SYMS)
+                except AnalysisError:
+                    one = False
+            seen.setdefault("R0", []).append(one)
+            seen.setdefault("U0", []).append(u0 is not None and norm(u0) == "self")
+            seen.setdefault("n0", []).append(n0 is not None and is_abs(n0, st.conds))
+        post = st.fork()
+        for x in _written_names([loop]):
+            post.havoc(x)
+        if good:
+            for x in accs:
+                post.env[x] = ast.Name(id=_ACC, ctx=ast.Load())
+        return [post]
+    paths = _paths(fi, hook)
+    verdict["loop"] = bool(seen.get("loops_ok")) and all(seen["loops_ok"]) and not seen.get("many")
+    for k in ("R0", "U0", "n0"):
+        verdict[k] = bool(seen.get(k)) and all(seen[k])
+    res = bool(paths)
+    for st, ret in paths:
+        neg = _decide(ast.Compare(left=ast.Name(id=power, ctx=ast.Load()), ops=[ast.Lt()], comparators=[ast.Constant(value=0)]), _known(st.conds))
+        if neg is False:
+            res = res and isinstance(ret, ast.Name) and ret.id == _ACC
+        elif neg is True:
+            res = res and norm(ret) == f"{_ACC}.inverse().normalize()"
+        else:
+            res = False
+    verdict["result"] = res
+    good = all(verdict.values())
     ctx.oblige(good)
     ctx.check(good, "ring-laws", fi, fi.node, "intpow is square-and-multiply from 1 with inverse for negative powers",
-              f"intpow is not square-and-multiply (loop={ok} R0={okR} U0={okU} n0={okn} result={okr})")
+              f"intpow is not square-and-multiply (loop={verdict['loop']} R0={verdict['R0']} U0={verdict['U0']} n0={verdict['n0']} result={verdict['result']})")
+
+
+# ------------------------------------------------------------------------------------------------------------------
+# codec
+# ------------------------------------------------------------------------------------------------------------------
+def _bytes_parts(ctx: Ctx, fi: FuncInfo, e: ast.AST, depth: int = 4) -> list[ast.AST]:
+    """A bytes expression as the sequence of parts it concatenates (`+`, b''.join of a literal / comprehension over a literal, super().serialize())."""
+    if isinstance(e, ast.Constant) and e.value == b"":
+        return []
+    if isinstance(e, ast.BinOp) and isinstance(e.op, ast.Add):
+        return _bytes_parts(ctx, fi, e.left, depth) + _bytes_parts(ctx, fi, e.right, depth)
+    if isinstance(e, ast.Call) and isinstance(e.func, ast.Attribute):
+        f = e.func
+        if f.attr == "join" and isinstance(f.value, ast.Constant) and f.value.value == b"" and len(e.args) == 1:
+            elts = _literal_elements(e.args[0])
+            if elts is not None:
+                return [p for x in elts for p in _bytes_parts(ctx, fi, x, depth)]
+        if f.attr == "serialize" and isinstance(f.value, ast.Call) and chain(f.value.func) == "super" and fi.cls is not None and depth:
+            for k in fi.cls.mro()[1:]:
+                if "serialize" in k.methods:
+                    return _serialize_parts(ctx, k.methods["serialize"], depth - 1)
+    return [e]
+
+
+def _serialize_parts(ctx: Ctx, fi: FuncInfo, depth: int = 4) -> list[ast.AST]:
+    paths = _paths(fi)
+    if len(paths) != 1:
+        raise AnalysisError(f"undecided: {fi.qualname}: {len(paths)} return paths in a serializer")
+    return _bytes_parts(ctx, fi, paths[0][1], depth)
+
+
+def _is_ipack(e: ast.AST) -> bool:
+    return isinstance(e, ast.Call) and chain(e.func) == "ipack" and len(e.args) == 1
 
 
 def _ipack_count(ctx: Ctx, fi: FuncInfo, depth: int = 3) -> int:
-    n = len([c for c in calls(fi) if chain(c.func) == "ipack"])
-    for c in calls(fi):
-        if isinstance(c.func, ast.Attribute) and c.func.attr == "serialize" and isinstance(c.func.value, ast.Call) and chain(c.func.value.func) == "super" and fi.cls and depth:
-            for k in fi.cls.mro()[1:]:
-                if "serialize" in k.methods:
-                    n += _ipack_count(ctx, k.methods["serialize"], depth - 1)
-                    break
-    return n
+    """Number of integers a serializer emits: the ipack parts of the returned concatenation (the parent's through super().serialize())."""
+    parts = _serialize_parts(ctx, fi, depth)
+    other = [p for p in parts if not _is_ipack(p)]
+    if other:
+        raise AnalysisError(f"undecided: {fi.qualname}: emits `{norm(other[0])[:60]}` besides ipack()ed integers")
+    return len(parts)
 
 
-def rule_codec(ctx: Ctx) -> None:
+def _len_bound(fi: FuncInfo, test: ast.AST):
+    """(X, K) when a loop test contains the conjunct len(X) < K (any spelling)."""
+    for f in _atoms_with_polarity(test, True):
+        if f.op != "lt" or f.right is None:
+            continue
+        le, ri = f.left, f.right
+        if f.pos and isinstance(le, ast.Call) and chain(le.func) == "len" and len(le.args) == 1 and isinstance(le.args[0], ast.Name):
+            return le.args[0].id, ri, 0                                   # len(X) < K
+        if not f.pos and isinstance(ri, ast.Call) and chain(ri.func) == "len" and len(ri.args) == 1 and isinstance(ri.args[0], ast.Name):
+            return ri.args[0].id, le, 1                                   # not K < len(X)  ==  len(X) < K + 1
+    return None
+
+
+def _star_args(call: ast.Call) -> list[ast.AST] | None:
+    out = []
+    for a in call.args:
+        if isinstance(a, ast.Starred):
+            elts = _literal_elements(a.value)
+            if elts is None:
+                return None
+            out.extend(elts)
+        else:
+            out.append(a)
+    return out
+
+
+def rule_codec(ctx: Ctx) -> None:  # noqa: C901, PLR0912, PLR0915
     repo = ctx.repo
-    PS = "ipv8/attestation/wallet/primitives/structs.py"
     for name in ("BonehPublicKey", "BonehPrivateKey"):
         c = repo.cls(name, PS)
         fields = repo.resolve_const(c.module, c.lookup_attr("FIELDS"), c)
         n = _ipack_count(ctx, c.lookup("serialize"))
         ctx.check(fields == n, "codec-arity", c.where, "FIELDS", f"{name}.serialize emits {n} integers == FIELDS ({fields})",
                   f"{name}.serialize emits {n} integers but unserialize reads FIELDS={fields}")
+    # key unserialize: the read loop stops at FIELDS integers and nothing but None is returned unless exactly FIELDS were read
     un = repo.method("BonehPublicKey", "unserialize", PS)
-    ok = any(isinstance(l, ast.While) and norm(l.test) == "rem and len(nums) < cls.FIELDS" for l in walk_no_nested(un.node)) and \
-        any(isinstance(s, ast.If) and norm(s.test) == "len(nums) != cls.FIELDS" and any(isinstance(x, ast.Return) and const_value(x.value) is None for x in s.body) for s in walk_no_nested(un.node))
+    bounds = []
+    for l in walk_no_nested(un.node):
+        if isinstance(l, ast.While):
+            b = _len_bound(un, l.test)
+            if b is not None and b[2] == 0 and norm(resolve(un, b[1])) == "cls.FIELDS":
+                bounds.append(b[0])
+    ok = len(bounds) == 1
+    built = 0
+    if ok:
+        nums = bounds[0]
+        want = ast.Compare(left=ast.Call(func=ast.Name(id="len", ctx=ast.Load()), args=[ast.Name(id=nums, ctx=ast.Load())], keywords=[]),
+                           ops=[ast.Eq()], comparators=[ast.Attribute(value=ast.Name(id="cls", ctx=ast.Load()), attr="FIELDS", ctx=ast.Load())])
+        for st, ret in _paths(un):
+            if isinstance(ret, ast.Constant) and ret.value is None:
+                continue
+            built += 1
+            if _decide(want, _known(st.conds)) is not True:
+                ok = False
+        ok = ok and built > 0
     ctx.check(ok, "codec-arity", un, un.node, "key unserialize reads exactly FIELDS integers, else None", "key unserialize accepts a wrong number of fields")
     bp = repo.cls("BitPairAttestation", "ipv8/attestation/wallet/bonehexact/structs.py")
-    n = _ipack_count(ctx, bp.methods["serialize"])
+    ser = bp.methods["serialize"]
+    parts = _serialize_parts(ctx, ser)
+    n = len([p for p in parts if _is_ipack(p)])
     u = bp.methods["unserialize"]
-    lim = [const_value(l.test.values[1].comparators[0]) for l in walk_no_nested(u.node) if isinstance(l, ast.While) and isinstance(l.test, ast.BoolOp)
-           and isinstance(l.test.values[1], ast.Compare)]
-    idx = sorted({const_value(x.slice) for x in ast.walk(u.node) if isinstance(x, ast.Subscript) and chain(x.value) == "nums" and isinstance(const_value(x.slice), int)})
+    lim, numsvar = [], None
+    for l in walk_no_nested(u.node):
+        if isinstance(l, ast.While):
+            b = _len_bound(u, l.test)
+            if b is not None and isinstance(const_value(resolve(u, b[1])), int):
+                lim.append(const_value(resolve(u, b[1])) + b[2])
+                numsvar = b[0]
+    idx = sorted({const_value(x.slice) for x in ast.walk(u.node) if isinstance(x, ast.Subscript) and chain(x.value) == numsvar and isinstance(const_value(x.slice), int)})
     ctx.check(lim == [n] and idx == list(range(n)), "codec-arity", u, u.node, f"BitPairAttestation: {n} integers written, {lim} read, indices {idx}",
               f"BitPairAttestation serialize/unserialize arity mismatch: writes {n}, reads {lim}, uses {idx}")
-    ser = bp.methods["serialize"]
-    order = [norm(c.args[0]) for c in calls(ser) if chain(c.func) == "ipack"]
+    order = [norm(p.args[0]) if _is_ipack(p) else "?" + norm(p)[:30] for p in parts]
     ctx.check(order == ["self.a.a", "self.a.b", "self.b.a", "self.b.b", "self.complement.a", "self.complement.b"], "codec-arity", ser, ser.node,
               "BitPairAttestation field order a, b, complement", f"BitPairAttestation field order changed: {order}")
-    inits = [norm(c) for c in calls(u, "FP2Value")]
-    ctx.check(inits == ["FP2Value(p, nums[0], nums[1])", "FP2Value(p, nums[2], nums[3])", "FP2Value(p, nums[4], nums[5])"], "codec-arity", u, u.node,
+    # the value handed to the constructor, whatever locals it went through: cls(FP2Value(p, n0, n1), FP2Value(p, n2, n3), FP2Value(p, n4, n5))
+    pname = u.params()[2] if len(u.params()) > 2 else "p"
+    inits: list[str] = []
+    upaths = [(st, ret) for st, ret in _paths(u) if not (isinstance(ret, ast.Constant) and ret.value is None)]
+    if len(upaths) == 1 and isinstance(upaths[0][1], ast.Call) and chain(upaths[0][1].func) == "cls" and not upaths[0][1].keywords:
+        args = _star_args(upaths[0][1])
+        inits = [norm(_simp(a)) for a in args] if args is not None else []
+    else:
+        inits = [norm(c) for c in calls(u, "FP2Value")]
+    ctx.check(inits == [f"FP2Value({pname}, {numsvar}[{2 * i}], {numsvar}[{2 * i + 1}])" for i in range(3)], "codec-arity", u, u.node,
               "unserialize rebuilds (a, b, complement) from consecutive pairs", f"unserialize pairs fields differently: {inits}")
+    _check_int_layout(ctx, repo)
+
+
+def _check_int_layout(ctx: Ctx, repo) -> None:
+    """
+    ipack writes [1 byte: len(L)] [L = big-endian length of P] [P = big-endian number]; iunpack reads llen = byte 0,
+    l = number in s[1 : 1+llen], the value from s[1+llen : 1+llen+l] and returns the rest s[1+llen+l :].  The slice
+    bounds are compared as polynomials in llen and l, so hoisted offsets and reordered sums are the same layout.
+    """
     ip, iu = repo.func(PS, "ipack"), repo.func(PS, "iunpack")
-    r = [x for x in walk_no_nested(ip.node) if isinstance(x, ast.Return)]
-    ok = len(r) == 1 and norm(r[0].value) == "struct.pack('>B', len(l)) + l + pnum" and norm(single_def(ip, "l")[0]) == "_num_to_str(len(pnum))"
-    r2 = [x for x in walk_no_nested(iu.node) if isinstance(x, ast.Return)]
-    ok = ok and len(r2) == 1 and norm(r2[0].value) == "(_str_to_num(s[1 + llen:llen + l + 1]), s[llen + l + 1:])" \
-        and norm(single_def(iu, "l")[0]) == "_str_to_num(s[1:1 + llen])" and norm(single_def(iu, "llen")[0]) == "struct.unpack('>B', s[0:1])[0]"
-    ctx.check(ok, "codec-arity", ip, ip.node, "ipack/iunpack agree on [1-byte len-of-len][len][number]", "ipack and iunpack disagree on the integer layout")
+    ok = False
+    pp = _paths(ip)
+    if len(pp) == 1:
+        parts = _bytes_parts(ctx, ip, pp[0][1])
+        num = ip.params()[0]
+        if len(parts) == 3:
+            head, ll, pn = parts
+            ok = norm(pn) == f"_num_to_str({num})" and norm(ll) == f"_num_to_str(len({norm(pn)}))" and \
+                norm(head) in (f"struct.pack('>B', len({norm(ll)}))", f"bytes([len({norm(ll)})])")
+    up = _paths(iu)
+    ok2 = False
+    if len(up) == 1 and isinstance(up[0][1], ast.Tuple) and len(up[0][1].elts) == 2:
+        s = iu.params()[0]
+        val, rest = up[0][1].elts
+
+        def bounds(e):
+            if isinstance(e, ast.Subscript) and norm(e.value) == s and isinstance(e.slice, ast.Slice) and e.slice.step is None:
+                return e.slice.lower, e.slice.upper
+            return None
+
+        def is_llen(e):
+            return norm(e) in (f"struct.unpack('>B', {s}[0:1])[0]", f"struct.unpack('>B', {s}[:1])[0]", f"{s}[0]")
+
+        def poly(e):
+            if e is None:
+                return None
+
+            def symbol(x):
+                if is_llen(x):
+                    return "llen"
+                if isinstance(x, ast.Call) and chain(x.func) == "_str_to_num" and len(x.args) == 1:
+                    b = bounds(x.args[0])
+                    if b is not None and b[0] is not None and b[1] is not None:
+                        lo, hi = poly(b[0]), poly(b[1])
+                        if lo is not None and hi is not None and (lo - Poly.const(1)).is_zero() and (hi - Poly.const(1) - Poly.var("llen")).is_zero():
+                            return "l"
+                    return "some_other_number"
+                return None
+            try:
+                return eval_expr(e, {}, symbol)
+            except AnalysisError:
+                return None
+        vb = bounds(val.args[0]) if isinstance(val, ast.Call) and chain(val.func) == "_str_to_num" and len(val.args) == 1 else None
+        rb = bounds(rest)
+        if vb is not None and rb is not None and rb[1] is None:
+            lo, hi, ro = poly(vb[0]), poly(vb[1]), poly(rb[0])
+            start = Poly.const(1) + Poly.var("llen")
+            end = start + Poly.var("l")
+            ok2 = lo is not None and hi is not None and ro is not None and (lo - start).is_zero() and (hi - end).is_zero() and (ro - end).is_zero()
+    ctx.check(ok and ok2, "codec-arity", ip, ip.node, "ipack/iunpack agree on [1-byte len-of-len][len][number]", "ipack and iunpack disagree on the integer layout")
 
 
 def rule_protocol_shape(ctx: Ctx) -> None:
@@ -326,23 +1244,177 @@ def rule_protocol_shape(ctx: Ctx) -> None:
     agg = pb.params()[2]
     # symbolic evaluation for an aggregate that holds no response (only the 'attestation' key, or nothing): the verdict must be "not in range"
     seeds = [v for _, v, _ in local_defs(pb, "in_range") if v is not None]
-    nonvacuous = any(isinstance(v, ast.Compare) and norm(v.left) == f"len({agg})" and isinstance(v.ops[0], (ast.Gt, ast.GtE)) and
-                     ((isinstance(v.ops[0], ast.Gt) and const_value(v.comparators[0]) == 1) or (isinstance(v.ops[0], ast.GtE) and const_value(v.comparators[0]) == 2)) for v in seeds)
+
+    def more_than_one(v) -> bool:
+        if not isinstance(v, ast.Compare) or len(v.ops) != 1:
+            return False
+        f = fact_of(v, True)
+        if f.op != "lt":
+            return False
+        if f.pos:       # K < len(agg) with K >= 1
+            return norm(f.right) == f"len({agg})" and const_value(f.left) == 1
+        return norm(f.left) == f"len({agg})" and const_value(f.right) == 2          # not len(agg) < 2
+    nonvacuous = any(more_than_one(v) for v in seeds)
     vacuous_all = any(isinstance(n, ast.Call) and chain(n.func) == "all" for v in seeds for n in ast.walk(v)) and not nonvacuous
-    conj = any(isinstance(s_, ast.AugAssign) and isinstance(s_.op, ast.BitAnd) and norm(s_.target) == "in_range" for s_ in walk_no_nested(pb.node))
+    conj = any(isinstance(s_, ast.AugAssign) and isinstance(s_.op, ast.BitAnd) and norm(s_.target) == "in_range" for s_ in walk_no_nested(pb.node)) or \
+        any(isinstance(v, ast.BinOp) and isinstance(v.op, ast.BitAnd) and "in_range" in (norm(v.left), norm(v.right)) or
+            isinstance(v, ast.BoolOp) and isinstance(v.op, ast.And) and "in_range" in [norm(x) for x in v.values] for v in seeds)
     ctx.check(nonvacuous and conj and not vacuous_all, "protocol-shape", pb, pb.node, "range certainty is 1 only with at least one response and all responses verified",
               "PengBaoRangeAlgorithm.certainty accepts vacuously: with no verified challenge response the aggregate yields certainty 1.0, so a proof built for a value outside "
               "the range is accepted before any answer was checked")
     oc = repo.method("AttestationCommunity", "on_attestation_chunk", "ipv8/attestation/wallet/community.py")
     comps = [n for n in ast.walk(oc.node) if isinstance(n, ast.ListComp) and "self.allowed_attestations.get(" in norm(n.generators[0].iter)]
-    ok = len(comps) == 1 and any(norm(i) == f"{norm(comps[0].generators[0].target)} == str(dist.global_time).encode()" for i in comps[0].generators[0].ifs)
+    ok = False
+    if len(comps) == 1:
+        tgt = norm(comps[0].generators[0].target)
+        for i in comps[0].generators[0].ifs:
+            f = fact_of(i, True)
+            if f.op == "eq" and f.pos and {norm(f.left), norm(f.right)} == {tgt, "str(dist.global_time).encode()"}:
+                ok = True
     ctx.check(ok, "protocol-shape", oc, comps[0] if comps else oc.node, "an incoming attestation is matched to the request whose global time it echoes",
               "on_attestation_chunk no longer selects the outstanding request by the echoed global time: with two requests in flight the attestation is stored under another "
               "request's attribute name and one-time key, and the honest owner's answers score 0 for the true value")
 
 
+# ------------------------------------------------------------------------------------------------------------------
+# range proof: the verification equations of the Peng-Bao proof
+# ------------------------------------------------------------------------------------------------------------------
+def _last(e: ast.AST) -> str:
+    e = strip_cast(e)
+    return e.attr if isinstance(e, ast.Attribute) else e.id if isinstance(e, ast.Name) else norm(e)
+
+
+def _group_term(e: ast.AST, pnames: dict[str, str]) -> dict[str, Poly]:
+    """A product of powers of group elements as an exponent vector {element: exponent polynomial}: * adds, // subtracts, intpow scales."""
+    e = strip_cast(e)
+    if isinstance(e, ast.BinOp) and isinstance(e.op, (ast.Mult, ast.FloorDiv)):
+        le, ri = _group_term(e.left, pnames), _group_term(e.right, pnames)
+        for k, v in ri.items():
+            le[k] = le.get(k, Poly()) + (v if isinstance(e.op, ast.Mult) else -v)
+        return le
+    if isinstance(e, ast.Call) and isinstance(e.func, ast.Attribute):
+        if e.func.attr == "intpow" and len(e.args) == 1 and not e.keywords:
+            ex = eval_expr(e.args[0], {}, lambda x: pnames.get(x.id, "?" + x.id) if isinstance(x, ast.Name) else None)
+            return {k: v * ex for k, v in _group_term(e.func.value, pnames).items()}
+        if e.func.attr == "inverse" and not e.args:
+            return {k: -v for k, v in _group_term(e.func.value, pnames).items()}
+        if e.func.attr == "normalize" and not e.args:
+            return _group_term(e.func.value, pnames)
+    if isinstance(e, (ast.Attribute, ast.Name)):
+        return {_last(e): Poly.const(1)}
+    raise AnalysisError(f"group term: unsupported `{norm(e)[:60]}`")
+
+
+def rule_range_binding(ctx: Ctx) -> None:
+    """
+    PengBaoPublicData.check(a, b, s, t, x, y, u, v) accepts a range proof only if ALL verification equations hold.  The
+    sub-proofs (EL, SQR) and the response equations only speak about c1, c2, ca*; it is the two binding equations
+    c1 == c / g^(a-1) and c2 == g^(b+1) / c that tie them to the attested value commitment c and to the verifier's own
+    interval [a, b] (c1 commits to m-a+1, c2 to b-m+1; both are then shown non-negative).  Without either, a proof built
+    for another interval / another value is accepted.  Equations are compared as exponent vectors over the commitments,
+    so `c1 * g^(a-1) == c`, hoisted aliases or a helper for g^m * h^r are the same equation.
+    """
+    repo = ctx.repo
+    fi = repo.method("PengBaoPublicData", "check", "ipv8/attestation/wallet/pengbaorange/structs.py")
+    p = fi.params()
+    if len(p) != 9:
+        raise AnalysisError(f"anchor-lost: {fi.qualname} no longer takes (a, b, s, t, x, y, u, v)")
+    pn = dict(zip(p[1:], ("a", "b", "s", "t", "x", "y", "u", "v")))
+    paths = _paths(fi)
+    if len(paths) != 1:
+        raise AnalysisError(f"undecided: {fi.qualname}: {len(paths)} return paths")
+    conj = _and_parts(paths[0][1])
+    relations: list[dict[str, Poly]] = []
+    positive: set[str] = set()
+    subproofs: set[tuple] = set()
+    for c in conj:
+        if isinstance(c, ast.Compare) and len(c.ops) == 1:
+            f = fact_of(c, True)
+            if f.op == "eq" and f.pos:
+                try:
+                    le, ri = _group_term(f.left, pn), _group_term(f.right, pn)
+                except AnalysisError:
+                    continue
+                rel = dict(le)
+                for k, v in ri.items():
+                    rel[k] = rel.get(k, Poly()) - v
+                relations.append({k: v for k, v in rel.items() if not v.is_zero()})
+            elif f.op == "lt" and f.pos and const_value(f.left) == 0 and isinstance(f.right, ast.Name):
+                positive.add(pn.get(f.right.id, f.right.id))
+            elif f.op == "lt" and not f.pos and const_value(f.right) == 1 and isinstance(f.left, ast.Name):
+                positive.add(pn.get(f.left.id, f.left.id))
+        elif isinstance(c, ast.Call) and isinstance(c.func, ast.Attribute) and c.func.attr == "check" and not c.keywords:
+            subproofs.add((_last(c.func.value), tuple(_last(a) for a in c.args)))
+    if not relations:
+        raise AnalysisError(f"anchor-lost: {fi.qualname}: no verification equation recognised in `{norm(paths[0][1])[:80]}`")
+
+    def has(want: dict[str, Poly]) -> bool:
+        neg = {k: -v for k, v in want.items()}
+        return any(r.keys() == want.keys() and (all((r[k] - want[k]).is_zero() for k in want) or all((r[k] - neg[k]).is_zero() for k in want))
+                   for r in relations)
+    one = Poly.const(1)
+    A, B, S, T, X, Y, U, W = (Poly.var(n) for n in ("a", "b", "s", "t", "x", "y", "u", "v"))
+    equations = [
+        ("c1 == c // g^(a-1)", {"c1": one, "c": -one, "g": A - one},
+         "binds the lower-bound commitment c1 to the value commitment c and the verifier's lower bound a"),
+        ("c2 == g^(b+1) // c", {"c2": one, "c": one, "g": -(B + one)},
+         "binds the upper-bound commitment c2 to the value commitment c and the verifier's upper bound b"),
+        ("caa == ca1 * ca2 * ca3", {"caa": one, "ca1": -one, "ca2": -one, "ca3": -one}, "splits the squared commitment into the three parts the responses open"),
+        ("g^x * h^u == ca1^s * ca2 * ca3", {"g": X, "h": U, "ca1": -S, "ca2": -one, "ca3": -one}, "verifies the first challenge response"),
+        ("g^y * h^v == ca1 * ca2^t * ca3", {"g": Y, "h": W, "ca1": -one, "ca2": -T, "ca3": -one}, "verifies the second challenge response"),
+    ]
+    for text, want, role in equations:
+        ctx.check(has(want), "range-binding", fi, f"check: {text}", f"PengBaoPublicData.check requires {text}",
+                  f"PengBaoPublicData.check no longer requires {text} (which {role}): the remaining equations do not tie the proof to the "
+                  "attested value and the verifier's interval, so a proof built for a value outside the range (e.g. for a shifted interval of the same width) is accepted")
+    for v in ("x", "y"):
+        ctx.check(v in positive, "range-binding", fi, f"check: {v} > 0", f"PengBaoPublicData.check requires the response {v} to be positive",
+                  f"PengBaoPublicData.check no longer requires {v} > 0: a non-positive response opens the commitment for a value outside the range")
+    for recv, args in (("el", ("g", "h", "c1", "h", "c2", "ca")), ("sqr1", ("ca", "h", "caa")), ("sqr2", ("g", "h", "ca3"))):
+        ctx.check((recv, args) in subproofs, "range-binding", fi, f"check: {recv}.check({', '.join(args)})",
+                  f"PengBaoPublicData.check verifies the sub-proof {recv} on ({', '.join(args)})",
+                  f"PengBaoPublicData.check no longer verifies the sub-proof {recv}.check({', '.join(args)}): the commitments it relates are unconstrained")
+
+
+# ------------------------------------------------------------------------------------------------------------------
+# a challenge response is consumed together with its pending-challenge entry
+# ------------------------------------------------------------------------------------------------------------------
+def rule_response_consumed(ctx: Ctx) -> None:
+    """
+    AttestationCommunity.on_challenge_response feeds the answer into the verifier's relativity map
+    (process_challenge_response / process_honesty_challenge).  The bit-pair profile is reconstructed by COUNTING answers,
+    so each outstanding challenge may be answered once: on every path that processes the answer the PendingChallengeCache
+    entry it was looked up under must be popped (before, or on every way out afterwards).  Otherwise a duplicated datagram
+    is counted twice, the profile over-counts a class and the true value scores 0.
+    """
+    repo = ctx.repo
+    fi = repo.method("AttestationCommunity", "on_challenge_response", "ipv8/attestation/wallet/community.py")
+    cfg = ctx.cfg(fi)
+    payload = fi.params()[-1]
+
+    def is_pending_id(call: ast.Call) -> bool:
+        txt = " ".join(norm(resolve(fi, a.value if isinstance(a, ast.Starred) else a)) for a in call.args)
+        return "'proving-hash'" in txt and f"{payload}.challenge_hash" in txt
+    uses = [c for c in calls(fi) if call_name(c) in ("process_challenge_response", "process_honesty_challenge")]
+    ctx.anchor(uses, "on_challenge_response feeds the response into process_challenge_response / process_honesty_challenge")
+    pops = [c for c in calls(fi) if chain(c.func) == "self.request_cache.pop" and is_pending_id(c)]
+    pop_nodes = [n for c in pops for n in cfg.nodes_for(c)]
+    for u in uses:
+        ok = bool(pop_nodes)
+        for n in cfg.nodes_for(u):
+            if not cfg.reachable(n):
+                continue
+            ok = ok and (cfg.must_complete(n, pop_nodes) or cfg.always_followed_by(n, pop_nodes))
+        ctx.check(ok, "response-consumed", fi, enclosing_stmt(u), f"{call_name(u)}: the pending challenge is popped on every path that processes the response",
+                  f"on_challenge_response hands the response to {call_name(u)} on a path that does not pop the PendingChallengeCache entry "
+                  f"('proving-hash', {payload}.challenge_hash) - not before it and not on every way out (early return): a duplicated / replayed response is "
+                  "counted again in the relativity map, the bit-pair profile over-counts and the honest prover's true value scores 0")
+
+
 def run(ctx: Ctx) -> None:
     rule_protocol_shape(ctx)
+    rule_range_binding(ctx)
+    rule_response_consumed(ctx)
     rule_ring_laws(ctx)
     rule_intpow(ctx)
     rule_codec(ctx)
@@ -377,4 +1449,40 @@ WITNESSES = [
      "old": "        return super().serialize() + ipack(self.n) + ipack(self.t1)", "new": "        return super().serialize() + ipack(self.n)"},
     {"name": "bitpair field order swapped", "file": "ipv8/attestation/wallet/bonehexact/structs.py", "rule": "codec-arity",
      "old": "        return (ipack(self.a.a) + ipack(self.a.b) + ipack(self.b.a) + ipack(self.b.b)", "new": "        return (ipack(self.a.a) + ipack(self.b.a) + ipack(self.a.b) + ipack(self.b.b)"},
+    {"name": "__mul__ fast path whose guard forgets the x^2 denominator coefficient", "file": VP, "rule": "ring-laws",
+     "old": "             - self.b * other.b - self.a * other.c + self.c * other.c)\n        aC = (self.aC * other.aC - self.cC * other.aC - self.bC * other.bC\n              + self.cC * other.bC - self.aC * other.cC + self.bC * other.cC)\n        bC = (self.bC * other.aC - self.cC * other.aC + self.aC * other.bC\n              - self.bC * other.bC - self.aC * other.cC + self.cC * other.cC)\n        return FP2Value(self.mod, a=a, b=b, aC=aC, bC=bC)\n\n    def __floordiv__",
+     "new": "             - self.b * other.b - self.a * other.c + self.c * other.c)\n        if self.aC == 1 and other.aC == 1 and self.bC == 0 and other.bC == 0 and self.cC == 0:\n            return FP2Value(self.mod, a=a, b=b)\n        aC = (self.aC * other.aC - self.cC * other.aC - self.bC * other.bC\n              + self.cC * other.bC - self.aC * other.cC + self.bC * other.cC)\n        bC = (self.bC * other.aC - self.cC * other.aC + self.aC * other.bC\n              - self.bC * other.bC - self.aC * other.cC + self.cC * other.cC)\n        return FP2Value(self.mod, a=a, b=b, aC=aC, bC=bC)\n\n    def __floordiv__"},
+    {"name": "equality accepts when one pair agrees", "file": VP, "rule": "ring-laws",
+     "old": "return all([divd.a == divd.aC, divd.b == divd.bC, divd.c == divd.cC])", "new": "return divd.a == divd.aC or (divd.b == divd.bC and divd.c == divd.cC)"},
+    {"name": "intpow does not invert for negative powers", "file": VP, "rule": "ring-laws",
+     "old": "        return R.inverse().normalize() if power < 0 else R", "new": "        return R"},
+    {"name": "intpow reads the parity of the halved exponent", "file": VP, "rule": "ring-laws",
+     "old": "            if (n % 2) == 1:\n                R *= U\n            U *= U\n            n = n // 2", "new": "            n = n // 2\n            if (n % 2) == 1:\n                R *= U\n            U *= U"},
+    {"name": "normalize scales without checking that the inverse exists", "file": VP, "rule": "ring-laws",
+     "old": "        if mp > 0:\n            a = (self.a * mp) % self.mod", "new": "        if self.aC > 0:\n            a = (self.a * mp) % self.mod"},
+    {"name": "modinv does not step to (b, a mod b)", "file": VP, "rule": "ring-laws",
+     "old": "        a, b, x1, x2 = b, r, x2, xn", "new": "        a, b, x1, x2 = b, a - r, x2, xn"},
+    {"name": "constructor stores cC unreduced", "file": VP, "rule": "ring-laws",
+     "old": "aC % mod, bC % mod, cC % mod", "new": "aC % mod, bC % mod, cC"},
+    {"name": "key unserialize returns a key for any number of fields", "file": PS, "rule": "codec-arity",
+     "old": "        if len(nums) != cls.FIELDS:\n            return None\n", "new": "        if len(nums) < 3:\n            return None\n"},
+    {"name": "iunpack returns the rest one byte early", "file": PS, "rule": "codec-arity",
+     "old": "    return _str_to_num(s[1 + llen:llen + l + 1]), s[llen + l + 1:]", "new": "    return _str_to_num(s[1 + llen:llen + l + 1]), s[llen + l:]"},
+    {"name": "ipack length byte counts the number instead of its length field", "file": PS, "rule": "codec-arity",
+     "old": "return struct.pack(\">B\", len(l)) + l + pnum", "new": "return struct.pack(\">B\", len(pnum)) + l + pnum"},
+    {"name": "bitpair unserialize crosses a coefficient pair", "file": "ipv8/attestation/wallet/bonehexact/structs.py", "rule": "codec-arity",
+     "old": "FP2Value(p, nums[2], nums[3])", "new": "FP2Value(p, nums[3], nums[2])"},
+    {"name": "range check: lower binding off by one", "file": "ipv8/attestation/wallet/pengbaorange/structs.py", "rule": "range-binding",
+     "old": "self.commitment.c // self.PK.g.intpow(a - 1)", "new": "self.commitment.c // self.PK.g.intpow(a)"},
+    {"name": "range check: upper binding dropped", "file": "ipv8/attestation/wallet/pengbaorange/structs.py", "rule": "range-binding",
+     "old": "        out &= self.commitment.c2 == self.PK.g.intpow(b + 1) // self.commitment.c\n", "new": ""},
+    {"name": "range check: response positivity dropped", "file": "ipv8/attestation/wallet/pengbaorange/structs.py", "rule": "range-binding",
+     "old": "        out &= x > 0\n", "new": ""},
+    {"name": "range check: square proof on the wrong commitment", "file": "ipv8/attestation/wallet/pengbaorange/structs.py", "rule": "range-binding",
+     "old": "self.sqr1.check(self.commitment.ca, self.PK.h, self.commitment.caa)", "new": "self.sqr1.check(self.commitment.ca, self.PK.h, self.commitment.ca)"},
+    {"name": "pending challenge is popped only for a still-listed challenge hash", "file": "ipv8/attestation/wallet/community.py", "rule": "response-consumed",
+     "old": "            self.request_cache.pop(*HashCache.id_from_hash(\"proving-hash\", payload.challenge_hash))\n            proving_cache = cache.proving_cache\n",
+     "new": "            proving_cache = cache.proving_cache\n            if payload.challenge_hash in proving_cache.hashed_challenges:\n                self.request_cache.pop(*HashCache.id_from_hash(\"proving-hash\", payload.challenge_hash))\n"},
+    {"name": "pending challenge is never popped", "file": "ipv8/attestation/wallet/community.py", "rule": "response-consumed",
+     "old": "            self.request_cache.pop(*HashCache.id_from_hash(\"proving-hash\", payload.challenge_hash))\n", "new": ""},
 ]
